@@ -216,6 +216,26 @@ func (d *drv) fail(in *caseInput, class, what, only string) {
 	d.rep.Fail(class, what, &cp)
 }
 
+// every path part a resolver returns is an expanded IRI (the generators' IRIs are http(s): / urn:)
+// or an index: never a compact IRI or a bare term
+func unexpandedPart(parts []any) (string, bool) {
+	for _, x := range parts {
+		if s, ok := x.(string); ok && !strings.HasPrefix(s, "http://") && !strings.HasPrefix(s, "https://") && !strings.HasPrefix(s, "urn:") {
+			return s, true
+		}
+	}
+	return "", false
+}
+
+func (d *drv) checkExpanded(in *caseInput, what string, p merklize.Path, err error, only string) {
+	if err != nil {
+		return
+	}
+	if s, bad := unexpandedPart(p.Parts()); bad {
+		d.fail(in, "c11-unexpanded-part", fmt.Sprintf("%s = %v: part %q is not an expanded IRI", what, p.Parts(), s), only)
+	}
+}
+
 func (c *ccase) recP(kind string, a, b []string, p merklize.Path, err error) {
 	q := query{kind: kind, a: a, b: b, failed: err != nil}
 	if err == nil {
@@ -300,6 +320,7 @@ func (d *drv) runCase(in *caseInput) {
 		// ---- document side
 		p, err := resolveDoc(path)
 		c.recP("QDoc", lf.DocPath, nil, p, err)
+		d.checkExpanded(in, "ResolveDocPath("+path+")", p, err, path)
 		var failedDoc bool
 		switch {
 		case err != nil:
@@ -360,6 +381,8 @@ func (d *drv) runCase(in *caseInput) {
 		full := append([]string{lf.TypeTerm}, lf.Rel...)
 		cp, err2 := o.PathFromContext(in.Ctx, strings.Join(full, "."))
 		c.recP("QCtx", full, nil, cp, err2)
+		d.checkExpanded(in, "FieldPathFromContext("+lf.TypeTerm+", "+rel+")", fp, err, path)
+		d.checkExpanded(in, "PathFromContext("+strings.Join(full, ".")+")", cp, err2, path)
 		tpath := append([]string{lf.TypeTerm}, noIndices(lf.Rel)...)
 		ty, err3 := o.TypeFromContext(in.Ctx, strings.Join(tpath, "."))
 		c.recS("QTypeOf", tpath, ty, err3)
@@ -410,6 +433,10 @@ func (d *drv) runCase(in *caseInput) {
 			if (e2 == nil) != (err == nil) || (err == nil && !partsEqual(p2.Parts(), fp.Parts())) {
 				d.fail(in, "c11-variant", "NewFieldPathFromContext differs from Options.FieldPathFromContext", path)
 			}
+			p4, e4 := merklize.NewPathFromContext(in.Ctx, strings.Join(full, "."))
+			if (e4 == nil) != (err2 == nil) || (err2 == nil && !partsEqual(p4.Parts(), cp.Parts())) {
+				d.fail(in, "c11-variant", "NewPathFromContext differs from Options.PathFromContext", path)
+			}
 			p3, e3 := merklize.NewPathFromDocument(in.Doc, path)
 			if pd, ed := o.NewPathFromDocument(in.Doc, path); (e3 == nil) != (ed == nil) || (ed == nil && !partsEqual(p3.Parts(), pd.Parts())) {
 				d.fail(in, "c11-variant", "NewPathFromDocument differs from Options.NewPathFromDocument", path)
@@ -426,6 +453,9 @@ func (d *drv) runCase(in *caseInput) {
 		}
 		id, err := o.TypeIDFromContext(in.Ctx, ni.TypeTerm)
 		c.recS("QTypeID", []string{ni.TypeTerm}, id, err)
+		if id2, err2 := merklize.TypeIDFromContext(in.Ctx, ni.TypeTerm); (err2 == nil) != (err == nil) || id2 != id {
+			d.fail(in, "c11-variant", "TypeIDFromContext differs from Options.TypeIDFromContext", key)
+		}
 		if !(ni.IsType && ni.TopVisible) {
 			if err == nil && id != ni.TypeIRI {
 				d.fail(in, "c11-type-id", fmt.Sprintf("TypeIDFromContext(%s) = %q, the type's IRI is %q", ni.TypeTerm, id, ni.TypeIRI), key)
